@@ -1,9 +1,9 @@
 SPECIFICATION FairSpec
 CONSTANTS
-  M = {1, 2}
-  MaxN = 2
+  M = {1}
+  MaxN = 3
   Delays = {0, 1}
-  Actives = {0, 1}
+  Actives = {0, 1, 2}
   Starts = {2}
   InitBlocks = {1, 3}
   MaxMsgs = 1
